@@ -600,6 +600,20 @@ def nearest_set(dec, t, mc, maxc, lo_hint=None):
     return {i} if dl < dh else {i + 1}
 
 
+def _touch_other_type(kind_other, mc, nr, res):
+    """a merge of the OTHER log counter type with the same (max_count, num_reserved) earlier in the same process: whatever a merge
+    remembers per configuration (decode tables, bases) must not leak between the 8-bit and the 16-bit class"""
+    try:
+        x = make(kind_other, 2, 2, mc, nr)
+        y = make(kind_other, 2, 2, mc, nr)
+    except ValueError:
+        return
+    x.cms[:] = 3
+    y.cms[:] = 5
+    x.merge(y)
+    res.count("merges_preceded_by_other_type_same_config")
+
+
 def merge_pairs(res, rng, tier, pids, light=False):
     t0 = time.time()
     sess = Session()
@@ -611,6 +625,7 @@ def merge_pairs(res, rng, tier, pids, light=False):
     elif tier == "quick":
         cfg8 = cfg8[:1] + rng.sample(cfg8[1:], min(2, len(cfg8) - 1))
     for mc, nr, base in cfg8:
+        _touch_other_type("log16", mc, nr, res)
         a = make("log8", 256, 256, mc, nr)
         b = make("log8", 256, 256, mc, nr)
         a.cms[:, :] = np().arange(256, dtype=np().uint8)[:, None]
@@ -666,6 +681,8 @@ def merge_pairs(res, rng, tier, pids, light=False):
                 p *= bD
                 dec.append(nr + acc)
         n = 256
+        if nr < 255:
+            _touch_other_type("log8", mc, nr, res)
         a = make("log16", 256, 256, mc, nr)
         z = make("log16", 256, 256, mc, nr)
         a.cms[:, :] = np().arange(65536, dtype=np().uint16).reshape(256, 256)
